@@ -29,6 +29,8 @@ type Sorts struct {
 	strLits map[string]string // literal -> const name
 	litList []string
 	funcs   map[string]bool // declared uninterpreted functions
+	inProgress map[string]bool // struct sorts whose declaration is being built
+	handle     map[string]bool // slice sorts represented by a handle into a slice heap (recursive element types)
 }
 
 type structInfo struct {
@@ -42,7 +44,7 @@ func newSorts() *Sorts {
 	s := &Sorts{
 		byKey: map[string]string{}, names: map[string]bool{}, structs: map[string]*structInfo{},
 		slices: map[string]types.Type{}, boxes: map[string]types.Type{}, tags: map[string]int{},
-		strLits: map[string]string{}, funcs: map[string]bool{},
+		strLits: map[string]string{}, funcs: map[string]bool{}, inProgress: map[string]bool{}, handle: map[string]bool{},
 	}
 	s.decls = append(s.decls,
 		"(declare-sort Str 0)",
@@ -151,6 +153,12 @@ func (s *Sorts) sliceSort(elem types.Type) string {
 	n := s.fresh("Slice_" + sanitize(es))
 	s.byKey[key] = n
 	s.slices[n] = elem
+	if s.inProgress[es] {
+		// []T inside T: the backing array lives in a slice heap, the slice value holds a handle
+		s.handle[n] = true
+		s.decls = append(s.decls, fmt.Sprintf("(declare-datatypes ((%s 0)) (((mk_%s (arr_%s Int) (len_%s Int) (nil_%s Bool)))))", n, n, n, n, n))
+		return n
+	}
 	s.decls = append(s.decls, fmt.Sprintf(
 		"(declare-datatypes ((%s 0)) (((mk_%s (arr_%s (Array Int %s)) (len_%s Int) (nil_%s Bool)))))", n, n, n, es, n, n))
 	// well-formedness of slice values read from memory is assumed where they are loaded (see assumeWF)
@@ -169,6 +177,8 @@ func (s *Sorts) structSort(t types.Type, st *types.Struct) string {
 	n := s.fresh(base)
 	s.byKey[key] = n
 	info := &structInfo{sort: n, ctor: "mk_" + n, st: st}
+	s.inProgress[n] = true
+	defer delete(s.inProgress, n)
 	// declare field sorts first (dependency order; Go forbids by-value recursion)
 	fs := make([]string, st.NumFields())
 	for i := 0; i < st.NumFields(); i++ {
@@ -216,6 +226,9 @@ func (s *Sorts) zero(t types.Type) string {
 		return "iface_nil"
 	case *types.Slice:
 		n := s.sliceSort(u.Elem())
+		if s.handle[n] {
+			return fmt.Sprintf("(mk_%s 0 0 true)", n)
+		}
 		return fmt.Sprintf("(mk_%s %s 0 true)", n, s.constArr(u.Elem()))
 	case *types.Array:
 		return s.constArr(u.Elem())
@@ -351,4 +364,8 @@ func sortedKeys[V any](m map[string]V) []string {
 	}
 	sort.Strings(ks)
 	return ks
+}
+
+func (s *Sorts) sliceHeap(sn string) (key, sort string) {
+	return "SLH_" + sn, "(Array Int (Array Int " + s.sortOf(s.slices[sn]) + "))"
 }
